@@ -1178,7 +1178,7 @@ class C20(Monitor):
         sdir = os.path.join(sub.out, "stats")
         by_vp = {}
         for (vpid, group, name), vals in w.stats_served.items():
-            if group in ("cpu", "memory"):
+            if group in ("cpu", "memory") or group.startswith("proc:"):
                 by_vp.setdefault(vpid, {}).setdefault(group, {})[name] = vals
         for vpid, groups in by_vp.items():
             vp = w.vprocs[vpid]
@@ -1200,7 +1200,30 @@ class C20(Monitor):
                 self.bad("stats_unparsable", "resource stats file does not parse", str(e))
                 continue
             w.probe("stats_checked")
+            reported = {ent.get("name") for ent in data if ent.get("type") == "Process"}
+            for grp in groups:
+                if grp.startswith("proc:") and grp[5:] not in reported:
+                    self.bad("stats_process_missing", "a sampled job process is missing from the aggregated report",
+                             f"{fname}: {grp[5:]} sampled {len(next(iter(groups[grp].values())))} times")
+                    return
             for ent in data:
+                if ent.get("type") == "Process":
+                    series = groups.get("proc:" + str(ent.get("name")))
+                    if series is None:
+                        self.bad("stats_process_unknown", "the aggregated report names a process that was never sampled",
+                                 f"{fname}: {ent.get('name')}")
+                        return
+                    w.probe("process_stats_checked")
+                    for stat, vals in series.items():
+                        vals = [int(v * 1000) for v in vals] if stat == "rss" else vals
+                        for key, fn in (("minimum", min), ("maximum", max), ("average", lambda v: sum(v) / len(v))):
+                            got = ent.get(key, {}).get(stat)
+                            if got is None or abs(fn(vals) - got) > 1e-6 * max(1.0, abs(got)):
+                                self.bad("stats_process_" + key, f"aggregated per-process {key} differs from the samples taken",
+                                         f"{ent.get('name')}.{stat}: reported {got}, samples {vals[:8]} true {fn(vals)} "
+                                         f"(pattern {w.stat_patterns.get((vpid, 'proc:' + str(ent.get('name')), stat))})")
+                                return
+                    continue
                 typ = {"CPU": "cpu", "Memory": "memory"}.get(ent.get("type"), None)
                 if typ is None or typ not in groups:
                     continue
